@@ -151,7 +151,8 @@ class BackwardsCompatEbuildRepositoryProfile(EbuildRepositoryProfile):
                 return 'EBUILD'
             elif spl[2] == 'metadata.xml':
                 return 'MISC'
-        if spl[2:3] == ['files']:
+        # files/ is a directory, AUX entries are for files inside it
+        if spl[2:3] == ['files'] and len(spl) > 3:
             return 'AUX'
 
         return (super().get_entry_type_for_path(path))
